@@ -38,9 +38,16 @@ class C16(Prop):
             eff = prefix.upper() + "_"
             names = ["_".join(p).upper() for p, _ in gt.leaf_paths(t)]
             env = {}
-            for nm in names:
-                if rng.random() < 0.6:
-                    env[eff + nm] = rng.choice(VALUES)
+            for p_, old in gt.leaf_paths(t):
+                nm = "_".join(p_).upper()
+                if isinstance(old, (list, tuple)):
+                    if rng.random() < 0.15:       # rejected kinds: keep them rare
+                        env[eff + nm] = rng.choice(VALUES)
+                elif rng.random() < 0.6:
+                    if isinstance(old, int) and not isinstance(old, bool) and rng.random() < 0.8:
+                        env[eff + nm] = rng.choice(["0", "1", "5", "-3", "+7", "007", "00", "12345678901234567890"])
+                    else:
+                        env[eff + nm] = rng.choice(VALUES)
             for _ in range(rng.randint(0, 3)):
                 kind = rng.random()
                 if kind < 0.4:
@@ -128,7 +135,8 @@ class C16(Prop):
 
     def classify(self, case, obs):
         lv = "levels:%d%s " % (1 + len(case.get("more", [])), "(deferred)" if case.get("deferred") else "")
-        return lv + "err:" + obs["err"] if "err" in obs else ("applied:%d" % min(3, len(list(gt.leaf_paths(gt.unjson(obs["ok"]))))))
+        return lv + ("err:" + obs["err"] if "err" in obs else
+                     ("applied:%d" % min(3, len(list(gt.leaf_paths(gt.unjson(obs["ok"])))))))
 
     def shrink_candidates(self, case):
         t = case["tree"]
